@@ -15,7 +15,7 @@ A check module provides
 """
 from __future__ import annotations
 
-import hashlib
+import hashlib  # noqa: I001
 import json
 import multiprocessing as mp
 import os
@@ -24,6 +24,34 @@ import sys
 import time
 import traceback
 import warnings
+
+
+def _own_arpack_start_vector():
+    """pymablock.kpm.rescale estimates spectral bounds with scipy.sparse.linalg.eigsh, whose default start vector is
+    drawn from ARPACK's internal random state (it depends on how many Lanczos runs the process has done before).
+    The harness owns this source of nondeterminism: without an explicit v0 a fixed, generic start vector is used,
+    so every execution of a case -- in a pool worker, in the confirming re-execution, in a replay -- is identical."""
+    import numpy as _np
+    import scipy.sparse.linalg as _sla
+
+    if getattr(_sla.eigsh, "_pmbverif_fixed_v0", False):
+        return
+    _orig = _sla.eigsh
+
+    def eigsh(A, *args, **kwargs):
+        if kwargs.get("v0") is None:
+            n = A.shape[0]
+            kwargs["v0"] = _np.cos(1.0 + 0.37 * _np.arange(n)) + 0.1
+        return _orig(A, *args, **kwargs)
+
+    eigsh._pmbverif_fixed_v0 = True
+    _sla.eigsh = eigsh
+    import scipy.sparse as _sp
+
+    _sp.linalg.eigsh = eigsh
+
+
+_own_arpack_start_vector()
 from collections import Counter
 
 VERIF = os.path.dirname(os.path.dirname(os.path.abspath(__file__)))
@@ -194,7 +222,6 @@ def run_check(mod, tier: str, seed: int, budget_s: float | None = None, replay: 
                 print(f"  -> {v['what'][:300]}", flush=True)
                 print(viol_lines[-1], flush=True)
     if n_viol or harness_errors:
-        import re
 
         classes = Counter()
         for res in results:
